@@ -161,6 +161,20 @@ class Bag(Val):
         return f"Bag({sym.show(self.elem)})"
 
 
+class VStack(Bag):
+    """Arrays stacked along axis 0, in order (np.vstack / np.concatenate): still a bag of their elements for whoever only
+    sorts / flattens it, but rows keep their place, so `stacked[0:M]` is the first part when M is its length."""
+
+    def __init__(self, parts: List["Arr"]):
+        elem = sym.Choice([p.elem for p in parts])
+        size = None
+        Bag.__init__(self, elem, size, False, None, list(parts))
+        self.ordered = list(parts)
+
+    def __repr__(self):
+        return f"VStack({self.ordered})"
+
+
 class Seq(Val):
     def __init__(self, items: List[Val], kind="list"):
         self.items = list(items)
